@@ -107,7 +107,26 @@ func compilerOf(env *LakeEnv) runtime.Compiler {
 	return c
 }
 
+// lakeQuery runs the query under the ordinary deadline; a query that misses it
+// (deadline exceeded or no answer at all) is run once more, alone, under a
+// deadline fifteen times as long before anything is reported: on a loaded
+// machine with GOMAXPROCS=1 the ordinary deadline is not evidence of a hang.
 func lakeQuery(env *LakeEnv, src string, par int) runOut {
+	o := lakeQueryOnce(env, src, par, queryTimeout)
+	if o.Err != nil && (strings.HasPrefix(o.Err.Error(), "HANG") || strings.Contains(o.Err.Error(), "context deadline exceeded") || strings.Contains(o.Err.Error(), "context canceled")) {
+		slowRetries++
+		o2 := lakeQueryOnce(env, src, par, 15*queryTimeout)
+		if o2.Err == nil {
+			slowRecovered++
+		}
+		return o2
+	}
+	return o
+}
+
+var slowRetries, slowRecovered int
+
+func lakeQueryOnce(env *LakeEnv, src string, par int, queryTimeout time.Duration) runOut {
 	comp := compilerOf(env)
 	type res struct {
 		o runOut
